@@ -207,7 +207,7 @@ def gen_deep(rng):
                     {"rel": "lt", "P": [[[a], "1"], [[b], "1"], [[], "-2"]]},
                     {"rel": "le", "P": [[[a], "2"], [[b], "1"], [[], "-2"]]}])
                 steps.append(dict({"t": "cmp", "lt": rng.random() < 0.5, "lo": None, "hi": None, "sup": False}, **tmpl))
-        case = {"family": "deep", "kind": kind, "n": n, "obj": obj, "steps": steps, "labels": rng.choice(Labels.STYLES)}
+        case = {"family": "deep", "kind": kind, "n": n, "obj": obj, "steps": steps, "labels": rng.choice(Labels.STYLES_X)}
         xs, f, feas = semantics(case)
         if not any(feas.values()):
             continue
@@ -252,7 +252,7 @@ def gen_case(rng, family):
             steps.insert(rng.randint(0, len(steps)), dict({"t": "cmp", "lt": rng.random() < 0.5, "lo": None, "hi": None,
                                                            "sup": False}, **extra))
         case = {"family": family, "kind": kind, "n": n, "obj": obj, "steps": steps,
-                "labels": rng.choice(Labels.STYLES)}
+                "labels": rng.choice(Labels.STYLES_X)}
         xs, f, feas = semantics(case)
         if not any(feas.values()):
             continue
